@@ -35,7 +35,7 @@ def run(ctx):
         nonlocal nviol
         nviol += 1
         if nviol <= 8: ctx.violation(msg, w)
-    seedterms, seedmeta, qterms, qmeta, mterms, mmeta = [], [], [], [], [], []
+    seedterms, seedmeta, qterms, qmeta, mterms, mmeta, vterms, vmeta = [], [], [], [], [], [], [], []
     kinds = ['sir_mf', 'sir_births_people', 'sis_static', 'sir_er_deaths', 'sir_preg', 'hiv_mf_vx', 'measles_day']     # configurations without global-generator users (C01)
     standalone = {}
     def alone(kind, seed):
@@ -169,6 +169,15 @@ def run(ctx):
                         vals = '[' + '; '.join(str(int(v)) for v in raw[t]) + ']%Z'
                         for q, got in ((F(1, 2), np.asarray(r2)[t]), (F(1, 10), np.asarray(r2.low)[t]), (F(9, 10), np.asarray(r2.high)[t])):
                             qterms.append(f'({qlit(q)}, {vals}, {qlit(float(got))})'); qmeta.append(dict(W, key=k, t=t, q=str(q)))
+                    # C18_quantile_monotone / C18_quantile_between: low <= median <= high, all within the members' range
+                    if not use_mean:
+                        v_, l_, h_ = np.asarray(r2, dtype=float), np.asarray(r2.low, dtype=float), np.asarray(r2.high, dtype=float)
+                        tol_ = 1e-9 * (1 + np.abs(raw).max())
+                        if np.any(l_ > v_ + tol_) or np.any(v_ > h_ + tol_) or np.any(l_ < raw.min(axis=1) - tol_) or np.any(h_ > raw.max(axis=1) + tol_):
+                            viol(f'{kind}: reduce() {k}: low <= median <= high within the range of the members does not hold', dict(W, key=k, stat='ordering'))
+                    if use_mean and len(vterms) < ctx.n(30, 200):
+                        t = rng.randrange(raw.shape[0]); sd_ = (float(np.asarray(r2.high)[t]) - float(np.asarray(r2.low)[t])) / 4
+                        vterms.append('([' + '; '.join(qlit(float(v)) for v in raw[t]) + f'], {qlit(sd_ * sd_)})'); vmeta.append(dict(W, key=k, t=t))
                     if use_mean and len(mterms) < ctx.n(40, 300):
                         t = rng.randrange(raw.shape[0])
                         mterms.append('([' + '; '.join(qlit(float(v)) for v in raw[t]) + f'], {qlit(float(np.asarray(r2)[t]))})'); mmeta.append(dict(W, key=k, t=t))
@@ -203,7 +212,9 @@ def run(ctx):
     for j in bad[:3]: ctx.broke('correspondence', 'a reduced quantile differs from the model quantile (linear interpolation on the sorted members)', repr(qmeta[j]))
     bad = ctx.coq_mismatches('c18mean', IMPORTS, 'list Q * Q', mterms, 'Definition ok (c : list Q * Q) : bool := let \'(l, r) := c in Qclose (1 # 1000000000) (qmean_of l) r.', shard=200)
     for j in bad[:3]: ctx.broke('correspondence', 'a reduced mean differs from qmean_of the members', repr(mmeta[j]))
-    ctx.cov['replayed_in_coq'] = dict(member_seeds=len(seedterms), quantiles=len(qterms), means=len(mterms))
+    bad = ctx.coq_mismatches('c18var', IMPORTS, 'list Q * Q', vterms, 'Definition ok (c : list Q * Q) : bool := let \'(l, r) := c in Qclose ((1 # 1000000000) * (1 + r)) (qvar_of l) r.', shard=200)
+    for j in bad[:3]: ctx.broke('correspondence', 'the spread of a mean reduction ((high - low) / 4, squared) differs from qvar_of the members', repr(vmeta[j]))
+    ctx.cov['replayed_in_coq'] = dict(member_seeds=len(seedterms), quantiles=len(qterms), means=len(mterms), variances=len(vterms))
 
 
 def replay(ctx, rp):
